@@ -253,8 +253,11 @@ func vsAllParked(dump []byte) bool {
 		switch {
 		case st == "chan receive", st == "chan send", st == "select", st == "semacquire", st == "IO wait",
 			st == "syscall", st == "select (no cases)", st == "chan receive (nil chan)", st == "chan send (nil chan)",
-			st == "finalizer wait", strings.HasPrefix(st, "sync."), strings.HasPrefix(st, "GC "),
-			st == "force gc (idle)", st == "debug call", st == "trace reader (blocked)":
+			st == "finalizer wait", strings.HasPrefix(st, "sync."),
+			st == "GC worker (idle)", st == "GC sweep wait", st == "GC scavenge wait",
+			st == "force gc (idle)", st == "trace reader (blocked)":
+			// parked. NOT in this list on purpose: "GC assist wait" / "GC assist marking" (a user goroutine
+			// paying allocation debt, e.g. while allocating a 640 KiB reply buffer), "sleep", "runnable", "running"
 		default:
 			return false // running, runnable, sleep, anything unknown
 		}
@@ -268,7 +271,12 @@ func vsSettle(limit time.Duration) bool {
 	for i := 0; ; i++ {
 		runtime.Gosched()
 		if vsQuiescent() {
-			return true
+			// twice in a row, with a yield in between: a goroutine that was made runnable by the
+			// very last action of the one that just parked shows up in the second look
+			runtime.Gosched()
+			if vsQuiescent() {
+				return true
+			}
 		}
 		if time.Now().After(deadline) {
 			return false
